@@ -287,6 +287,34 @@ def run(ctx):
       if r is not None:
         ctx.fail_input('optimal_threshold', site_of(strategy, dist, y) + ' (through fit)',
                        dict(estimator=name, strategy=strategy, params=params, dist=dist.tolist(), y=y.tolist()), expected=r)
+  # in-range option values in the number types a caller holds them in: Python ints (0, 1, 2), and numpy.float64 values as
+  # produced by np.linspace / np.sqrt (a float subclass): accepted, and the threshold is the one the plain float gives
+  rngp = np.random.default_rng(ctx.seed + 11)
+  for name in ('ITML', 'MMC'):
+    est = host(name, 2)
+    est.components_ = np.array([[1.0]])
+    for rep in range(6 if thorough else 2):
+      nn = int(rngp.integers(6, 14))
+      dist = rngp.integers(0, 6, size=nn).astype(float)
+      yv = np.where(rngp.random(nn) < 0.5, 1, -1)
+      yv[0], yv[1] = 1, -1
+      for strategy, key, plain, typed in (('max_tpr', 'min_rate', 0.5, np.float64(0.5)), ('max_tnr', 'min_rate', 0.25, np.linspace(0, 1, 5)[1]),
+                                          ('max_tnr', 'min_rate', 1.0, 1), ('max_tpr', 'min_rate', 0.0, 0),
+                                          ('f_beta', 'beta', 2.0, 2), ('f_beta', 'beta', 0.5, np.float64(0.5)),
+                                          ('f_beta', 'beta', float(np.sqrt(2)), np.sqrt(2))):
+        ctx.count('parameter_number_types', 1)
+        ctx.hist('parameter_type', type(typed).__name__)
+        inp = dict(estimator=name, strategy=strategy, params={key: repr(typed)}, param_type=type(typed).__name__, dist=dist.tolist(), y=yv.tolist())
+        try:
+          t_plain, _ = calibrate(est, dist, yv, strategy, **{key: plain})
+          t_typed, _ = calibrate(est, dist, yv, strategy, **{key: typed})
+        except Exception as ex:
+          ctx.fail_input('parameter_number_types', 'calibrate_threshold(strategy=%s, %s=%r of type %s) raises %s: no threshold is calibrated' % (
+              strategy, key, typed, type(typed).__name__, type(ex).__name__), inp, observed=str(ex)[:200])
+          continue
+        if t_plain != t_typed:
+          ctx.fail_input('parameter_number_types', 'the calibrated threshold depends on the number type of %s' % key, inp,
+                         observed=t_typed, expected=t_plain)
   validation_checks(ctx)
 
 
